@@ -169,7 +169,6 @@ package psatoken
 
 //@ func isNilComponent[*SwComponent]
 //@   property C01 C05 C17 C18
-//@   trusted reflection (reflect.ValueOf / Kind / IsNil); audited by the bounded assumption audit
 //@   ensures[nil] ret == (sc == nil)
 //@   modifies nothing
 //@   option allocs=none
